@@ -8,8 +8,17 @@ use serde::{Deserialize, Serialize};
 pub struct SinkErr(pub usize);
 
 impl embedded_io::Error for SinkErr {
+    /// The kind varies with the failing call, so that code which treats some kinds specially (retrying `Interrupted`,
+    /// say) is exercised: whatever its kind, a sink error is reported by the call during which it was raised.
     fn kind(&self) -> embedded_io::ErrorKind {
-        embedded_io::ErrorKind::Other
+        use embedded_io::ErrorKind::*;
+        match self.0 % 5 {
+            0 => Other,
+            1 => Interrupted,
+            2 => TimedOut,
+            3 => BrokenPipe,
+            _ => WriteZero,
+        }
     }
 }
 
